@@ -134,13 +134,19 @@ def rule_Q1(ctx, R):
                 res.bad(Violation("Q1", f["path"], name, bad, *_floc(f)))
             else:
                 res.ok("%s::%s" % (adt, name))
-    from interp import RAW_TRAITS
-    # queries such as is_locked() neither acquire nor release: only the operations of RAW_SEM are restricted
-    for f, t in call_sites(ctx, lambda c: c.get("trait") in RAW_TRAITS and (c["name"] in RAW_SEM or c["name"].startswith(("lock", "try_lock", "unlock", "downgrade", "upgrade", "bump"))) ):
-        top = ctx.F.top_fn(f)
-        if top["id"] not in allowed_tops:
-            res.bad(Violation("Q1", top["path"], "raw-call:" + t["callee"]["name"], "lock_api operation `%s` called outside "
-                              "a RawLock impl of a leaf lock" % t["callee"]["name"], f["span"]["file"], t.get("line")))
+    # no other *entry* function executes a lock_api operation (private helpers, marker-trait impls etc. are seen inlined;
+    # queries such as is_locked() neither acquire nor release: only acquiring/releasing operations are restricted)
+    from rules_ts import entry_fns
+    for f in entry_fns(ctx):
+        if f["id"] in allowed_tops:
+            continue
+        paths, err, I = ctx.paths(f)
+        for p in paths or []:
+            bad_e = next((e for e in p.ev("RAW") if e["op"] in RAW_SEM or e["op"].startswith(("lock", "try_lock", "unlock", "downgrade", "upgrade", "bump"))), None)
+            if bad_e is not None:
+                res.bad(Violation("Q1", f["path"], "raw-call:" + bad_e["op"], "lock_api operation `%s` is executed outside a RawLock impl "
+                                  "of a leaf lock: a panic in it is not turned into a kill" % bad_e["op"], bad_e.get("file"), bad_e.get("line")))
+                break
     res.need(9, "HL ops containing a raw call")
     return res
 
@@ -1046,9 +1052,29 @@ def rule_O2(ctx, R):
                     base = lt["ty"] if lt["k"] in ("ref", "ptr") else lt
                     if base["k"] == "adt" and base["path"] in SORTING and pl["l"] != 0:
                         top = F.top_fn(f)
-                        by_value_self = top.get("inputs") and top["inputs"][0]["k"] == "adt" and top["inputs"][0]["path"] in SORTING
-                        is_drop = (top.get("trait_item") or "") == "std::ops::Drop::drop"
-                        if by_value_self or is_drop:
+
+                        def allowed(g):
+                            bv = g.get("inputs") and g["inputs"][0]["k"] == "adt" and g["inputs"][0]["path"] in SORTING
+                            return bool(bv) or (g.get("trait_item") or "") == "std::ops::Drop::drop"
+                        ok_ = allowed(top)
+                        if not ok_ and not top.get("reachable"):
+                            # a crate-private helper: judged by the entry functions that (transitively) call it
+                            cg = cg_of(ctx)
+                            seen, work, entries = set(), [top["id"]], []
+                            while work:
+                                cur = work.pop()
+                                if cur in seen:
+                                    continue
+                                seen.add(cur)
+                                for fid, ss in cg.succ.items():
+                                    if cur in ss:
+                                        g = F.top_fn(F.fn_by_id[fid])
+                                        if g.get("reachable") or allowed(g):
+                                            entries.append(g)
+                                        else:
+                                            work.append(g["id"])
+                            ok_ = bool(entries) and all(allowed(g) for g in entries)
+                        if ok_:
                             res.ok("%s mutates its own fields (consumer/Drop)" % top["path"])
                         else:
                             res.bad(Violation("O2", top["path"], "field-write", "field of a sorting collection is written or "
@@ -1071,7 +1097,7 @@ def rule_O2(ctx, R):
                               "(through its heap cell): the cached, sorted lock list no longer matches the data - new members are "
                               "never locked but still handed out by guard()/data_mut()", muts[0].get("file"), muts[0].get("line")))
     for f in F.fns:
-        if "inputs" not in f or f.get("unsafe"):
+        if "inputs" not in f or f.get("unsafe") or not f.get("reachable"):
             continue
         imp = F.impl_of_fn(f)
         if not imp:
